@@ -360,7 +360,7 @@ func init() {
 		if !c.Quick() {
 			depth = 4
 		}
-		cfg := e1.Config{Alphabet: alpha, Depth: depth, Stop: r.TooMany,
+		cfg := e1.Config{ReplayNames: c.ReplayCalls(), Alphabet: alpha, Depth: depth, Stop: r.TooMany,
 			After: func(w *world.World, path []int, pre interface{}, obs string) {
 				atomic.AddInt64(&stateCases, 1)
 				vs := c06Compare(w.Engine.Catalog(), world.RoundTrip, false)
